@@ -179,9 +179,20 @@ package encoder
 //@ spec htmlChar(c) := c == '<' || c == '>' || c == '&'
 //@ spec lineSepAt(b, k) := b[k] == 226 && k + 2 < len(b) && b[k+1] == 128 && (b[k+2] == 168 || b[k+2] == 169)
 
+// JSON string body as a DFA over the bytes between the quotes: 0 plain, 1 after a backslash, 2..5 inside
+// \uXXXX (4..1 hex digits still expected), 9 dead (raw control character, raw quote, bad escape).
+//@ spec isHex(c) := (c >= '0' && c <= '9') || (c >= 'a' && c <= 'f') || (c >= 'A' && c <= 'F')
+//@ spec simpleEscC(e) := e == '"' || e == 92 || e == '/' || e == 'b' || e == 'f' || e == 'n' || e == 'r' || e == 't'
+//@ spec strStep(q, c) := (q == 0 ? (c == 92 ? 1 : ((c < 32 || c == '"') ? 9 : 0)) : (q == 1 ? (simpleEscC(c) ? 0 : (c == 'u' ? 2 : 9)) : ((q >= 2 && q <= 5) ? (isHex(c) ? (q == 5 ? 0 : q + 1) : 9) : 9)))
+//@ ufun strRun(Int, Int) Int
+
 //@ func compactString(dst, src, cursor, escape) (res, c, err)
-//@   props C18 C06 C17
+//@   props C18 C06 C17 C05
 //@   requires bufOK(src, cursor) && apart(dst, src)
+//@   let body := ptrOf(src) + cursor + 1
+//@   define strRun(body, 0) == 0 && (forall k :: 0 <= k ==> strRun(body, k + 1) == strStep(strRun(body, k), M(body + k)))
+// the bytes between the quotes form a JSON string body: no raw control character, only valid escapes
+//@   ensures err == nil ==> strRun(body, c - cursor - 2) == 0
 //@   ensures err == nil ==> copied(dst, res, src, cursor, c)
 //@   ensures err == nil ==> forall k :: 0 <= k && k < len(dst) ==> res[k] == old(dst[k])
 //@   ensures forall k :: 0 <= k && k < len(src) ==> src[k] == old(src[k])
@@ -199,7 +210,17 @@ package encoder
 //@   loop 1: invariant forall k :: 0 <= k && k < len(src) ==> src[k] == old(src[k])
 //@   loop 1: invariant escape ==> forall k :: 0 <= k && k < len(dst) - old(len(dst)) ==> !htmlChar(dst[old(len(dst))+k])
 //@   loop 1: invariant escape ==> forall k :: 0 <= k && k <= cursor - start ==> !htmlChar(src[start+k])
+//@   loop 1: invariant strRun(body, cursor - old(cursor)) == 0
 //@   loop 1: decreases len(src) - cursor
+
+// the escape helper: on success the sequence is a valid JSON escape ending at c
+//@ spec hexAt(b, k) := isHex(b[k])
+//@ func validateEscape(src, cursor) (c, err)
+//@   props C18 C06 C17 C05
+//@   requires bufOK(src, cursor)
+//@   ensures err == nil ==> (simpleEscC(src[cursor]) && c == cursor) || (src[cursor] == 'u' && c == cursor + 4 && c < len(src) - 1 && hexAt(src, cursor+1) && hexAt(src, cursor+2) && hexAt(src, cursor+3) && hexAt(src, cursor+4))
+//@   assigns nothing
+//@   loop 1: unroll 4
 
 //@ func compact(dst, src, escape) (res, err)
 //@   props C18 C03
